@@ -100,6 +100,45 @@ int main(void) {
             if (ZSTD_isError(r)) printf("err %s at=%d fed=%zu\n", zv_errclass(r), failedAt, fed);
             else { ZSTD_frameHeader h; ZSTD_getFrameHeader(&h, out, ob.pos); printf("ok fed=%zu fcs=%lld\n", fed, h.frameContentSize == ZSTD_CONTENTSIZE_UNKNOWN ? -1LL : (long long)h.frameContentSize); }
             free(src); free(out);
+        } else if (!strcmp(op, "cbound")) {
+            unsigned long long n = strtoull(strtok(NULL, " "), NULL, 10); size_t b = ZSTD_compressBound((size_t)n); if (ZSTD_isError(b)) printf("E\n"); else printf("%llu\n", (unsigned long long)b);
+        } else if (!strcmp(op, "ccap")) {
+            /* ccap <id=val,...|-> <cap> <hex-src> : ZSTD_compress2 into an exact-size heap buffer of <cap> bytes (ASan redzone right behind it) plus canary check */
+            char* ps = strtok(NULL, " "); size_t cap = (size_t)strtoull(strtok(NULL, " "), NULL, 10), n; unsigned char* in = zv_unhex(strtok(NULL, " "), &n);
+            unsigned char* out = (unsigned char*)malloc(cap + 64); size_t r = 0, i; char* save = NULL; char* kv; int over = 0;
+            unsigned char* exact = (unsigned char*)malloc(cap ? cap : 1);
+            memset(out + cap, 0xA5, 64);
+            ZSTD_CCtx_reset(cctx, ZSTD_reset_session_and_parameters);
+            for (kv = strtok_r(ps, ",", &save); kv && !ZSTD_isError(r); kv = strtok_r(NULL, ",", &save)) { int id, val; if (sscanf(kv, "%d=%d", &id, &val) == 2) r = ZSTD_CCtx_setParameter(cctx, (ZSTD_cParameter)id, val); }
+            if (!ZSTD_isError(r)) { r = ZSTD_compress2(cctx, out, cap, in, n); for (i = 0; i < 64; i++) if (out[cap + i] != 0xA5) over = 1;
+                ZSTD_CCtx_reset(cctx, ZSTD_reset_session_only); { size_t r2 = ZSTD_compress2(cctx, exact, cap, in, n); if (ZSTD_isError(r) != ZSTD_isError(r2) || (!ZSTD_isError(r) && r != r2)) over |= 2; } }
+            if (ZSTD_isError(r)) printf("err %s%s\n", zv_errclass(r), over ? " OVERRUN" : ""); else printf("ok %zu%s%s\n", r, r > cap ? " RETURNED-MORE-THAN-CAPACITY" : "", over ? " OVERRUN" : "");
+            free(in); free(out); free(exact);
+        } else if (!strcmp(op, "dcap")) {
+            /* dcap <cap> <hex> : ZSTD_decompress into exact-size buffer + canary copy */
+            size_t cap = (size_t)strtoull(strtok(NULL, " "), NULL, 10), n, i; unsigned char* in = zv_unhex(strtok(NULL, " "), &n);
+            unsigned char* out = (unsigned char*)malloc(cap + 64); unsigned char* exact = (unsigned char*)malloc(cap ? cap : 1); int over = 0; size_t r, r2;
+            memset(out + cap, 0xA5, 64);
+            r = ZSTD_decompressDCtx(dctx, out, cap, in, n); for (i = 0; i < 64; i++) if (out[cap + i] != 0xA5) over = 1;
+            r2 = ZSTD_decompressDCtx(dctx, exact, cap, in, n); if (ZSTD_isError(r) != ZSTD_isError(r2)) over |= 2;
+            if (ZSTD_isError(r)) printf("err %s%s\n", zv_errclass(r), over ? " OVERRUN" : ""); else printf("ok %zu %016llx%s%s\n", r, (unsigned long long)XXH64(out, r, 0), r > cap ? " RETURNED-MORE-THAN-CAPACITY" : "", over ? " OVERRUN" : "");
+            free(in); free(out); free(exact);
+        } else if (!strcmp(op, "insp")) {
+            /* insp <hex> : frame inspectors on a sequence of frames */
+            size_t n; unsigned char* in = zv_unhex(strtok(NULL, " "), &n);
+            size_t fs = ZSTD_findFrameCompressedSize(in, n); unsigned long long db = ZSTD_decompressBound(in, n), cs = ZSTD_getFrameContentSize(in, n), fd = ZSTD_findDecompressedSize(in, n);
+            size_t mg = ZSTD_decompressionMargin(in, n);
+            printf("fsize=%s%zu dbound=%lld fcs=%lld fdsize=%lld margin=%s%zu\n", ZSTD_isError(fs) ? "E" : "", ZSTD_isError(fs) ? (size_t)0 : fs, (long long)db, (long long)cs, (long long)fd, ZSTD_isError(mg) ? "E" : "", ZSTD_isError(mg) ? (size_t)0 : mg);
+            free(in);
+        } else if (!strcmp(op, "inplace")) {
+            /* inplace <outsize> <delta> <hex> : in-place decoding with margin = ZSTD_decompressionMargin + delta (documented procedure) */
+            size_t outSize = (size_t)strtoull(strtok(NULL, " "), NULL, 10), n; long delta = atol(strtok(NULL, " ")); unsigned char* in = zv_unhex(strtok(NULL, " "), &n);
+            size_t mg = ZSTD_decompressionMargin(in, n);
+            if (ZSTD_isError(mg)) printf("err margin %s\n", zv_errclass(mg));
+            else { size_t m = (size_t)((long)mg + delta > 0 ? (long)mg + delta : 0); size_t total = outSize + m; unsigned char* buf = (unsigned char*)malloc(total ? total : 1); size_t r;
+                if (n > total) { printf("skip\n"); } else { memcpy(buf + total - n, in, n); r = ZSTD_decompressDCtx(dctx, buf, total, buf + total - n, n); printf("margin=%zu ", mg); zv_result(r, buf); }
+                free(buf); }
+            free(in);
         } else if (!strcmp(op, "xxh")) {
             size_t n; unsigned char* in = zv_unhex(strtok(NULL, " "), &n); printf("ok %zu %016llx\n", n, (unsigned long long)XXH64(in, n, 0)); free(in);
         } else if (!strcmp(op, "fsize")) {
@@ -111,5 +150,6 @@ int main(void) {
         } else printf("bad-op\n");
         fflush(stdout);
     }
+    ZSTD_freeDCtx(dctx); ZSTD_freeCCtx(cctx);
     return 0;
 }
